@@ -35,6 +35,45 @@ UNSAFE_ALLOWED_FNS = {
 }
 
 
+UNSAFE_MAX = {"rand_isaac": 4, "rand_jitter": 1}
+
+
+def _role_of(fnpath):
+    """(type ident, method) of an inherent or trait method path in either of rustc's spellings"""
+    m = re.match(r"^<([\w:]+)(?:<.*>)? as [\w:]+>::(\w+)", fnpath)
+    if m:
+        return m.group(1).split("::")[-1], m.group(2)
+    m = re.match(r"^[\w:]*<impl [\w:]+ for ([\w:]+)(?:<.*>)?>::(\w+)", fnpath)
+    if m:
+        return m.group(1).split("::")[-1], m.group(2)
+    parts = fnpath.split("::")
+    return (parts[-2] if len(parts) > 1 else ""), parts[-1]
+
+
+ALLOWED_ROLES = {_role_of(k): v for k, v in UNSAFE_ALLOWED_FNS.items()}
+
+
+def unsafe_allowed(crate, fnpath, depth=0):
+    """an unsafe block is accepted in an allow-listed function (recognised by type and method, wherever the impl block lives) or in
+    a private helper all of whose callers are accepted (the allow-listed code moved into a helper)"""
+    if fnpath in UNSAFE_ALLOWED_FNS:
+        return True, UNSAFE_ALLOWED_FNS[fnpath]
+    r = _role_of(fnpath)
+    if r in ALLOWED_ROLES:
+        return True, ALLOWED_ROLES[r]
+    pub = {f["path"]: f["pub"] for f in crate.facts["fns"]}
+    if depth < 3 and pub.get(fnpath) is False:
+        from .c08 import callers_of
+        key = next((k for k, b in crate.bodies.items() if b["def"] == fnpath), None)
+        if key is not None:
+            cs = {crate.bodies[c]["def"] for c in callers_of(crate, key) if c != key}
+            # closures passed to the helper are part of their parent function
+            cs = {re.sub(r"::\{closure#\d+\}$", "", c) for c in cs}
+            if cs and all(unsafe_allowed(crate, c, depth + 1)[0] for c in cs):
+                return True, "private helper called only from allow-listed functions"
+    return False, "unsafe block outside the allow-list"
+
+
 def eval_op(crate, key, opaque_extra=(), summarise=False):
     ev = crate.evaluator(max_steps=6000000) if summarise else crate.evaluator()
     if summarise:
@@ -311,12 +350,15 @@ def run(chk, tier):
     for config in ("default", "jitter-std"):
         for cname in (facts.CRATES if config == "default" else ["rand_jitter"]):
             crate = Crate(cname, config)
+            nunsafe = 0
             for u in crate.facts["unsafe_blocks"]:
                 if u["from_expansion"]:
                     continue
-                okk = u["fn"] in UNSAFE_ALLOWED_FNS
-                chk.ob("R4", "unsafe block in %s [%s]" % (u["fn"], config), okk,
-                       UNSAFE_ALLOWED_FNS.get(u["fn"], "unsafe block outside the allow-list"), where=u["span"], nontrivial=False)
+                nunsafe += 1
+                okk, why = unsafe_allowed(crate, u["fn"])
+                chk.ob("R4", "unsafe block in %s [%s]" % (u["fn"], config), okk, why, where=u["span"], nontrivial=False)
+            lim = UNSAFE_MAX.get(cname, 0)
+            chk.ob("R4", "%s[%s]|at most %d unsafe block(s)" % (cname, config, lim), nunsafe <= lim, "%d unsafe blocks" % nunsafe, nontrivial=False)
             for f in crate.facts["fns"]:
                 if f["unsafe"]:
                     chk.ob("R4", "unsafe fn %s [%s]" % (f["path"], config), False, "unsafe fn outside the allow-list", where=f["span"])
